@@ -75,6 +75,8 @@ def main():
                 viol = [l for l in out.splitlines() if l.startswith('VIOLATION')]
                 first = [l for l in out.splitlines() if l.startswith('violation:')]
                 status = 'CAUGHT' if code == 1 and viol else ('MISSED' if code == 0 else f'ERROR({code})')
+                if meta.get('obsolete') and status == 'MISSED':
+                    status = 'SILENT(obsolete: no longer a defect on the current tree, see meta.json)'
                 if meta.get('not_claimed') and status == 'MISSED':
                     status = 'MISSED(outside the claimed statements, see meta.json)'
                 if meta.get('benign'):
